@@ -304,8 +304,8 @@ def check_dominance(idx: Index, rep: Report) -> None:
 
 
 def check(idx: Index, rep: Report, tier: str) -> str:
-    check_post_order(idx, rep)
-    check_dominance(idx, rep)
+    rep.run(check_post_order, idx, rep)
+    rep.run(check_dominance, idx, rep)
     return (
         "AST/CFG rules over xdsl/ir/post_order.py and xdsl/irdl/dominance.py: visited-set discipline of the DFS "
         "(start marked, per-element test-and-mark, re-push before successors, only visited entries returned), "
